@@ -142,6 +142,12 @@ def history(draw):
     def clone():
         return dict(op="clone", what=pick(["state", "state", "cov"]), how=pick(["copy", "deepcopy", "pickle"]))
 
+    def extra():
+        # refused requests (must leave everything as it was) and snapshots taken BEFORE later in-place changes
+        if draw(st.booleans()):
+            return dict(op="refused", what=pick(["cov", "state", "copy_cov", "copy_state"]), frame=pick(["NOPE", "Hill", "eme2000"]))
+        return dict(op="snapshot", how=pick(["copy", "pickle", "method"]))
+
     ops = []
     if draw(st.integers(0, 7)) == 0:
         # directed prefix: a conversion, possibly its way back, then the covariance is carried to another state
@@ -167,8 +173,10 @@ def history(draw):
         return dict(el=el, t=t, start=pick(sorted(SISTER)), form=pick(FORMS), label=pick(["obj", "obj", "str"]), cov=cov,
                     ops=ops, scale=pick(SCALES))
     for _ in range(draw(st.integers(1, 5)) - len(ops)):
-        k = draw(st.integers(0, 24))
-        if k >= 22:
+        k = draw(st.integers(0, 27))
+        if k >= 25:
+            ops.append(extra())
+        elif k >= 22:
             ops.append(clone())
         elif k >= 20:
             ops.append(reattach())
@@ -183,7 +191,11 @@ def history(draw):
         else:
             ops.append(dict(op="copy_state", frame=pick([None, None, None] + BUILTIN)))
     out = dict(el=el, t=t, start=pick(START), form=pick(FORMS),
-               label=pick(["obj", "obj", "obj", "str"]), cov=cov, ops=ops, scale=pick(SCALES))
+               label=pick(["obj", "obj", "obj", "str"]), cov=cov, ops=ops, scale=pick(SCALES),
+               attach=pick(["setter", "setter", "kwarg"]))
+    for op in ops:
+        if op["op"] == "copy_state" and op.get("frame") and draw(st.booleans()):
+            op["same"] = True            # the frame is taken from a template object: copy(same=template)
     if draw(st.integers(0, 2)) == 0:
         out["given_in"] = pick(BUILTIN + LOCAL + START)
         out["pre"] = [dict(frame=pick(BUILTIN + LOCAL + [None]), how=pick(["set", "copy"]), how_name=draw(st.booleans()))
@@ -351,7 +363,11 @@ def describe(case, upto):
            + (" rebuilt" if case.get("rebuild") else "")]
     for op in case["ops"][: upto + 1]:
         f = op.get("frame")
-        if op["op"] == "clone":
+        if op["op"] == "snapshot":
+            out.append(f"snapshot({op['how']})")
+        elif op["op"] == "refused":
+            out.append(f"refused {op['what']}->{op['frame']}")
+        elif op["op"] == "clone":
             out.append(f"clone({op['how']} of the {op['what']})")
         elif op["op"] == "reattach":
             out.append(f"reattach(other state, {op['dt']:+.0f} s, {f or 'same frame'})")
@@ -478,13 +494,18 @@ def check_history(case):
     if case.get("rebuild"):
         cov = Cov(orb, cov, None)
         check_cov(model, cov, model.cov_frame, -1, what=f"Cov(orb, <covariance converted to {model.cov_frame}>, None)", worst=worst)
-    orb.cov = cov
+    if case.get("attach") == "kwarg":
+        # the covariance handed over at construction of the state (keyword argument) instead of through the setter
+        orb = StateVector(np.array(orb.base, float), orb.date, orb.form, orb.frame, cov=cov)
+    else:
+        orb.cov = cov
     if model.base != model.start or pre_txt:
         model.nt = True
+    snapshots = []
     worst = [0.0]
     check_cov(model, orb.cov, model.cov_frame, -1, worst=worst)
     cls = [f"start:{model.start}", f"eop:{_eop[0]}", "given:state-frame" if given == model.start else f"given:{given}",
-           f"standalone-conversions:{len(pre_txt)}" + ("+rebuilt" if case.get("rebuild") else ""),
+           f"standalone-conversions:{len(pre_txt)}" + ("+rebuilt" if case.get("rebuild") else ""), f"attach:{case.get('attach', 'setter')}",
            f"label:{case['label']}", f"form:{form}", f"scale:{scale}", f"values:{kind_c}"]
     day_us = 86400 * 10**6
     off = (case["t"] + day_us // 2) % day_us - day_us // 2
@@ -574,7 +595,12 @@ def check_history(case):
             kept_state = np.array(old.base, float)
             kept_cov = np.array(old.cov, dtype=float)
             kept_labels = (old.frame.name, fname(old.cov.frame))
-            new = old.copy() if F is None else old.copy(frame=F)
+            if F is not None and op.get("same"):
+                template = StateVector([1.0, 2.0, 3.0, 4.0, 5.0, 6.0], old.date, old.form, get_frame(F))
+                new = old.copy(same=template)
+                cls.append("copy:same=")
+            else:
+                new = old.copy() if F is None else old.copy(frame=F)
             if (not np.array_equal(np.asarray(old.base, float), kept_state)
                     or not np.array_equal(np.array(old.cov, dtype=float), kept_cov)
                     or (old.frame.name, fname(old.cov.frame)) != kept_labels):
@@ -591,6 +617,39 @@ def check_history(case):
                     model.note(F)
                     model.cov_frame = F
                 model.state_frame = F
+        elif kind == "refused":
+            full = lambda o: (np.array(o.base, float), o.frame.name, o.form.name, np.array(o.cov, dtype=float), fname(o.cov.frame))
+            kept = full(orb)
+            try:
+                if op["what"] == "cov":
+                    orb.cov.frame = F
+                elif op["what"] == "state":
+                    orb.frame = F
+                elif op["what"] == "copy_cov":
+                    orb.cov.copy(frame=F)
+                else:
+                    orb.copy(frame=F)
+            except Exception as exc:          # any refusal will do; what matters is the state afterwards
+                refusal = type(exc).__name__
+            else:
+                raise Violation("not-refused", f"{op['what']} -> {F!r} was accepted [{describe(case, step)}]", step=step)
+            now = full(orb)
+            # (a state held in a non-cartesian form goes to cartesian and back around the failed attempt: one rounding)
+            if form == "cartesian":
+                same_state = np.array_equal(kept[0], now[0])
+            else:
+                as_cart = lambda arr: np.asarray(StateVector(arr, orb.date, form, orb.frame).copy(form="cartesian").base, float)
+                same_state = np.allclose(as_cart(kept[0]), as_cart(now[0]), rtol=1e-9, atol=0.0)
+            if not (same_state and kept[1:3] == now[1:3] and np.array_equal(kept[3], now[3]) and kept[4] == now[4]):
+                raise Violation("refusal-not-atomic", f"{op['what']} -> {F!r} raised {refusal} but left the state / covariance changed: "
+                                f"labels {kept[1], kept[4]} -> {now[1], now[4]} [{describe(case, step)}]", step=step)
+            cls.append(f"refused:{op['what']}:{F}")
+        elif kind == "snapshot":
+            snap = {"copy": lambda o: _copy.deepcopy(o), "pickle": lambda o: _pickle.loads(_pickle.dumps(o)),
+                    "method": lambda o: o.copy()}[op["how"]](orb)
+            snapshots.append((snap, np.array(snap.base, float), snap.frame.name, np.array(snap.cov, dtype=float),
+                              fname(snap.cov.frame), step, op["how"]))
+            cls.append(f"snapshot:{op['how']}")
         elif kind == "clone":
             fn = {"copy": _copy.copy, "deepcopy": _copy.deepcopy,
                   "pickle": lambda o: _pickle.loads(_pickle.dumps(o))}[op["how"]]
@@ -629,6 +688,11 @@ def check_history(case):
     orb.cov.frame = model.base
     model.cov_frame = model.base
     check_cov(model, orb.cov, model.base, n - 1, what="the covariance brought back to the frame it was given in", worst=worst)
+    for snap, st0, fr0, cv0, lb0, at, how_s in snapshots:
+        if (not np.array_equal(np.asarray(snap.base, float), st0) or snap.frame.name != fr0
+                or not np.array_equal(np.array(snap.cov, dtype=float), cv0) or fname(snap.cov.frame) != lb0):
+            raise Violation("snapshot-changed", f"a snapshot ({how_s}) taken after step {at} was changed by what happened to the "
+                            f"original afterwards: cov label {lb0} -> {fname(snap.cov.frame)} [{describe(case, n - 1)}]")
     if isinstance(caller, np.ndarray) and not np.array_equal(np.asarray(caller, float), as_container(make_c0(case["cov"]), kind_c)):
         raise Violation("caller-matrix-changed", f"the matrix given to Cov() ({kind_c}) was modified by the conversions")
     if model.nt:
